@@ -18,10 +18,13 @@ const (
 	timeout          = 5 * time.Second
 )
 
+// KdcProxyMsg is the KDC-PROXY-MESSAGE of [MS-KKDCP] 2.2.2. It uses the
+// explicit tagging of the Kerberos ASN.1 module, target-domain is a
+// KerberosString (GeneralString)
 type KdcProxyMsg struct {
 	Message []byte `asn1:"tag:0,explicit"`
-	Realm   string `asn1:"tag:1,optional"`
-	Flags   int    `asn1:"tag:2,optional"`
+	Realm   string `asn1:"tag:1,optional,explicit,generalstring"`
+	Flags   int    `asn1:"tag:2,optional,explicit"`
 }
 
 type Kdc struct {
